@@ -290,11 +290,11 @@ func c19Case(f []string) (out string) {
 	case "rr6":
 		info := &dhcp6.RelayInfo{HopCount: uint8(c19U(f[1])), LinkAddr: c19IP(f[2]), PeerAddr: c19IP(f[3]), InterfaceID: c19Hex(f[4])}
 		b := BuildRelayReply(c19Hex(f[5]), info)
-		return fmt.Sprintf("%s ; unwrap=%s ; txid=%s", c19Show(b), c19Unwrap(b), c19Txid(b))
+		return fmt.Sprintf("%s ; unwrap=%s ; txid=%s ; m6=%s", c19Show(b), c19Unwrap(b), c19Txid(b), c19Msg(dhcp6.UnwrapRelayReply(b)))
 	case "unw6":
 		b := c19Hex(f[1])
 		m, i := dhcp6.UnwrapRelay(b)
-		return fmt.Sprintf("unwrap=%s ; txid=%s ; %s ; info=%s", c19Unwrap(b), c19Txid(b), c19Msg(m), c19Info(i))
+		return fmt.Sprintf("unwrap=%s ; txid=%s ; %s ; info=%s ; m6=%s", c19Unwrap(b), c19Txid(b), c19Msg(m), c19Info(i), c19Msg(dhcp6.UnwrapRelayReply(b)))
 	case "lt6":
 		r := RewriteV6Lifetimes(c19Hex(f[3]), uint32(c19U(f[1])), uint32(c19U(f[2])))
 		return c19Show(r)
